@@ -62,6 +62,7 @@ class CFG:
         self.by_ast: dict[int, list[Node]] = {}
         self._frames: list[_Frame] = []
         self._copy = ""
+        self.back_edges: set[tuple[int, int]] = set()
         self.entry = self._new("entry", None)
         self.exit = self._new("exit", None)
         self.raise_exit = self._new("raise_exit", None)
@@ -191,7 +192,8 @@ class CFG:
             outs = self._block(s.body, [(t, "true")])
             self._frames.pop()
             for n, lab in outs:
-                self._edge(n, t, "back")
+                self._edge(n, t, "back" if lab == "seq" else lab)
+                self.back_edges.add((n.id, t.id))
             infinite = isinstance(s.test, ast.Constant) and bool(s.test.value) is True
             after = []
             if not infinite:
@@ -211,7 +213,8 @@ class CFG:
             outs = self._block(s.body, [(h, "iter")])
             self._frames.pop()
             for n, lab in outs:
-                self._edge(n, h, "back")
+                self._edge(n, h, "back" if lab == "seq" else lab)
+                self.back_edges.add((n.id, h.id))
             after = []
             if s.orelse:
                 after += self._block(s.orelse, [(h, "exhausted")])
@@ -346,10 +349,11 @@ class CFG:
     def live_nodes(self) -> set[int]:
         return self.reachable([self.entry])
 
-    def must_pass(self, src: Node, through: Iterable[Node], exits: Optional[Iterable[Node]] = None, avoid_edges=()) -> bool:
-        """True iff every path from src to any of `exits` (default: normal exit) passes through a node of `through`."""
+    def must_pass(self, src: Node, through: Iterable[Node], exits: Optional[Iterable[Node]] = None, avoid_edges=(), normal_only: bool = False) -> bool:
+        """True iff every path from src to any of `exits` (default: normal exit) passes through a node of `through`.
+        normal_only: ignore exception edges (paths on which some statement raised)."""
         ex = [self.exit] if exits is None else list(exits)
-        r = self.reachable([src], avoid=through, avoid_edges=avoid_edges)
+        r = self.reachable([src], avoid=through, avoid_edges=avoid_edges, edge_ok=self.normal_edge if normal_only else None)
         return not any(e.id in r for e in ex)
 
     def dominated_by_nodes(self, target: Node, through: Iterable[Node]) -> bool:
